@@ -96,6 +96,17 @@ def scenarios(g, rng):
         return [lambda d=d: observe(pool.PoolValidator(shared), d) for d in sdocs]
     out.append(Scenario("shared-shorthand", shared_shorthand))
 
+    spaced = {'a': {'type': 'dict', 'allow unknown': True, 'schema': {'x': {'type': 'integer'}}},
+              'b': {'type': 'dict', 'require all': True, 'schema': {'y': {'type': 'dict', 'purge unknown': True, 'schema': {'z': {'type': 'string'}}}}}}
+    pdocs = [{'a': {'x': 1, 'q': 2}, 'b': {'y': {'z': 'k', 'w': 1}}}, {'a': {'x': 'v'}, 'b': {}}]
+
+    def shared_spaced():
+        # rule names written with spaces: canonicalised in place in the shared literal (no recorded finding lives here)
+        reset_process_state()
+        shared = copy.deepcopy(spaced)
+        return [lambda d=d: observe(pool.PoolValidator(shared), d) for d in pdocs]
+    out.append(Scenario("shared-spaced-names", shared_spaced))
+
     def lazy_class():
         reset_process_state(lazy=True)
         return [lambda d=d: observe(pool.PoolValidator(copy.deepcopy(canon)), d) for d in docs[:2]]
@@ -252,12 +263,19 @@ def run(ctx):
         if sc.name.startswith("shared-invalid"):
             # small scenarios: every line of schema.py is a preemption point (the reference guards, the cache inserts)
             hotter = [[j for j, w in enumerate(t) if isinstance(w, tuple) and w[0] == 'schema.py' and w[1] >= 268] for t in traces]
+        if sc.name == "shared-spaced-names":
+            # every line of the in-place expansion is a preemption point
+            hotter = [[j for j, w in enumerate(t) if isinstance(w, tuple) and w[0] == 'schema.py' and 122 <= w[1] <= 267] for t in traces]
         plans = []
         # systematic: one preemption right after a line that writes shared state, the other thread(s) then run to completion
         for t in range(n):
             lazy_pts = [j for j in hotter[t] if 37 <= traces[t][j][1] <= 50][:40]
-            pts = hotter[t] if (thorough or sc.name.startswith("shared-invalid")) else sorted(set(rng.sample(hotter[t], min(len(hotter[t]), per)) + lazy_pts))
-            if thorough and len(pts) > 300:
+            pts = hotter[t] if (thorough or sc.name.startswith(("shared-invalid", "shared-spaced"))) else sorted(set(rng.sample(hotter[t], min(len(hotter[t]), per)) + lazy_pts))
+            if sc.name == "shared-spaced-names":
+                core = [j for j in hotter[t] if 127 <= traces[t][j][1] <= 153]          # expand() and _canonicalize_rule_names
+                rest = [j for j in hotter[t] if j not in set(core)]
+                pts = sorted(core + rng.sample(rest, min(len(rest), 300 if thorough else 60)))
+            elif thorough and len(pts) > 300:
                 pts = rng.sample(pts, 300)
             for a in pts:
                 others = [o for o in range(n) if o != t]
